@@ -79,6 +79,19 @@ def generate(prop, rng):
                 # the user rewrites a file WHILE the directory is being hashed
                 q["mid"] = {"file": rng.randrange(nfiles), "after_reads": rng.randint(1, 4), "same_len": rng.random() < 0.5}
             ops.append(q)
+    if not big and rng.random() < 0.2:
+        # motif: hashed in a batch, emptied in place, hashed in a batch again, then new bytes of the first
+        # length under the first (inode, mtime, size), and looked up once more
+        f = rng.randrange(nfiles)
+        ops += [
+            {"op": "query", "kind": rng.choice(["build_dry", "build_entries"]), "file": f, "with_info": True, "subset": 0.5, "persist": False},
+            {"op": "clock", "adv": 10**9},
+            {"op": "mutate", "file": f, "how": "empty", "tag": 1},
+            {"op": "query", "kind": rng.choice(["build_dry", "build_entries"]), "file": f, "with_info": True, "subset": 0.5, "persist": False},
+            {"op": "mutate", "file": f, "how": "restore_old_stat", "tag": 0},
+            {"op": "query", "kind": rng.choice(["build_dry", "build_entries", "get", "get_many"]), "file": f, "with_info": False,
+             "subset": 0.5, "persist": False},
+        ]
     return {"prop": prop, "cfg": cfg, "files": files, "ops": ops}
 
 
